@@ -21,11 +21,13 @@ ASSUMPTIONS = [
 
 @st.composite
 def axis(draw, n):
-    kind = draw(st.sampled_from(["uniform", "nonuniform", "descending"]))
+    kind = draw(st.sampled_from(["uniform", "uniform", "nonuniform", "nonuniform", "descending", "descending", "closing_value_twice"]))
     start = draw(st.one_of(st.integers(-100, 100).map(float), gen.finite(-1e4, 1e4)))
-    if kind == "uniform":
+    if kind in ("uniform", "closing_value_twice"):
         step = draw(st.sampled_from([1.0, 0.5, 2.5, 10.0]))
         vals = [start + k * step for k in range(n)]
+        if kind == "closing_value_twice" and n >= 3:
+            vals[-1] = vals[0]  # a global grid whose closing meridian is stored at both ends (-180 and 180 wrapped to the same value): the cells stay distinct cells
     else:
         incs = draw(st.lists(st.one_of(st.integers(1, 20).map(float), gen.finite(0.01, 50)), min_size=n, max_size=n))
         vals, cur = [], start
@@ -149,7 +151,7 @@ def check_grid(case, ctx):
         if not exact_equal(ds[name].values, data[k]):
             raise Violation("variable %s does not hold its source values cell by cell" % name)
         # address a few cells by coordinate
-        for (i, j) in {(0, 0), (case["nr"] - 1, 0), (0, case["nc"] - 1), (case["nr"] // 2, case["nc"] // 2)}:
+        for (i, j) in {(0, 0), (case["nr"] - 1, 0), (0, case["nc"] - 1), (case["nr"] // 2, case["nc"] // 2)} if len(set(east)) == len(east) and len(set(north)) == len(north) else ():
             got = ds[name].sel({dims[0]: north[i], dims[1]: east[j]}).values
             ctx.check(got == data[k][i, j] or (np.isnan(got) and np.isnan(data[k][i, j])), "variable %s at (northing=%r, easting=%r) is %r, source cell holds %r", name, north[i], east[j], got, data[k][i, j])
     for k, name in enumerate(extra_names or []):
@@ -178,6 +180,8 @@ def check_grid(case, ctx):
               "axes_same_dtype" if case.get("east_dtype") == case.get("north_dtype") else "axes_mixed_dtype")
     if case["nr"] == 1 or case["nc"] == 1:
         ctx.label("single_row_or_col")
+    if len(set(east.tolist())) < east.size or len(set(north.tolist())) < north.size:
+        ctx.label("repeated_axis_value")
     ctx.nt(case["nr"] >= 2 and case["nc"] >= 2 and case["nr"] != case["nc"])
 
 
